@@ -1,7 +1,7 @@
 /-
   CC.Model.Transform — hand-written model of Network/transformers.py (all of it), literally:
-  the once-computed short list, the (absorbed, retained) choice with the reference-node
-  rule, the sequential renaming over *stale* pairs, self-loop dropping, the exemption list
+  the short list, the (absorbed, retained) choice with the reference-node rule, the sequential
+  renaming in which the remaining pairs are renamed along with the branches, self-loop dropping, the exemption list
   compared by dataclass equality (name, type, class and both values).
   Every function returns through the `Network` constructor, which may raise.
 -/
@@ -52,14 +52,31 @@ def contractStep (bs : List (Branch L K)) (an rn : L) : List (Branch L K) :=
   let bs2 := bs1.map fun b => if b.n2 = an then { b with n2 := rn } else b
   bs2.filter fun b => b.n1 ≠ b.n2
 
-/-- the `(absorbed, retained)` pairs, computed once from the input network -/
+/-- the terminal pairs of the short circuits to contract (reference-node rule applied), computed from the
+input network; the loop keeps them up to date (`renPair`) -/
 def shortPairs (N : Net L K) (keep : List (ElemKey K)) : List (L × L) :=
   (N.branches.filter fun b => b.e.isShort && !(keep.contains b.key)).map fun b =>
     if b.n1 ≠ N.zero then (b.n1, b.n2) else (b.n2, b.n1)
 
+/-- `(absorbed, retained)` for a short between `p.1` and `p.2`: the reference node is never absorbed
+(`an, rn = (n1, n2) if not network.is_zero_node(n1) else (n2, n1)`) -/
+def orient (z : L) (p : L × L) : L × L := if p.1 ≠ z then (p.1, p.2) else (p.2, p.1)
+
+/-- a pair seen through the renaming `an → rn` (`(rn if a == an else a, rn if r == an else r)`) -/
+def renPair (an rn : L) (p : L × L) : L × L := (if p.1 = an then rn else p.1, if p.2 = an then rn else p.2)
+
+/-- the loop of `remove_short_circuit_elements`: contract the first pair, rename the remaining pairs
+accordingly, continue -/
+def contractAll (z : L) : List (L × L) → List (Branch L K) → List (Branch L K)
+  | [], bs => bs
+  | p :: ps, bs =>
+    contractAll z (ps.map (renPair (orient z p).1 (orient z p).2)) (contractStep bs (orient z p).1 (orient z p).2)
+termination_by ps => ps.length
+decreasing_by simp
+
 /-- `remove_short_circuit_elements` -/
 def removeShort (N : Net L K) (keep : List (ElemKey K)) : Except Err (Net L K) :=
-  Net.mk? ((shortPairs N keep).foldl (fun bs p => contractStep bs p.1 p.2) N.branches) N.zero
+  Net.mk? (contractAll N.zero (shortPairs N keep) N.branches) N.zero
 
 /-- `impedance(name, Z)` / `admittance(name, Y)` of elements.py -/
 def zeroInVoltage (b : Branch L K) : Branch L K :=
